@@ -10,8 +10,10 @@ import (
 	"context"
 	"fmt"
 	"os"
+	"runtime"
 	"strconv"
 	"sync"
+	"time"
 
 	"github.com/facebookincubator/dns/dnsrocks/dnsserver"
 	"github.com/facebookincubator/dns/dnsrocks/metrics"
@@ -123,7 +125,18 @@ func main() {
 					wg.Add(1)
 					go func(f func()) { defer wg.Done(); f() }(f)
 				}
-				wg.Wait()
+				// an iteration takes milliseconds; one that has not finished after two minutes is hung (a deadlock
+				// between the real goroutines): dump the goroutines and give up with a distinctive exit code
+				done := make(chan struct{})
+				go func() { wg.Wait(); close(done) }()
+				select {
+				case <-done:
+				case <-time.After(120 * time.Second):
+					buf := make([]byte, 1<<20)
+					n := runtime.Stack(buf, true)
+					fmt.Fprintf(os.Stderr, "C14-RACE-HANG: iteration %d (%s, cache %v) did not finish within 120 s\n%s\n", it, b, cache, buf[:n])
+					os.Exit(3)
+				}
 				if it%3 != 0 {
 					h.Close()
 				}
